@@ -310,6 +310,50 @@ fn all_strings(alpha: &[char], max: usize) -> Vec<String> {
     out
 }
 
+/// several literals in one program (`a, b, c`): each item must still be exactly what it spells, whatever other
+/// constants the same program holds (equal numbers of different kinds, equal text in other quote forms, ...)
+fn check_together<D: Store + Mk>(cs: &[&Case], acc: &mut Acc) {
+    let exact: Vec<(&Case, &V)> = cs.iter().filter_map(|c| if let Expect::Exact(v) = &c.expect { Some((*c, v)) } else { None }).collect();
+    if exact.len() < 2 {
+        return;
+    }
+    acc.evals += 1;
+    acc.count("programs_with_several_literals");
+    let src = exact.iter().map(|(c, _)| format!("({})", c.src)).collect::<Vec<_>>().join(", ");
+    let class = format!("together|{}", exact.iter().map(|(c, _)| c.class.split('|').next().unwrap_or("")).collect::<Vec<_>>().join("+"));
+    let payload = || Json::obj().with("store", Json::s(D::NAME)).with("source", Json::s(src.clone()));
+    let (m, a) = match eval::<D>(&src) {
+        Ok(x) => x,
+        Err(Fail::Panic(st, msg, loc)) => {
+            acc.violation(format!("panic|{}|{:?}|{}", panic_site(&loc), st, class), format!("[{}] {:?} panicked in {:?}: {} at {}", D::NAME, src, st, msg, loc), payload());
+            return;
+        }
+        Err(Fail::Err(st, e)) => {
+            acc.violation(format!("rejected|{:?}|{}|{}", st, D::NAME, class), format!("[{}] {:?} is rejected ({:?}: {})", D::NAME, src, st, e), payload());
+            return;
+        }
+    };
+    let got = match guarded(|| readback(&m.d, a)) {
+        Ok(Ok(v)) => v,
+        other => {
+            acc.violation(format!("unreadable|{}|{}", D::NAME, class), format!("[{}] {:?}: {:?}", D::NAME, src, other.map(|x| x.map(|y| y.show()))), payload());
+            return;
+        }
+    };
+    let items = match &got {
+        V::List(xs) => xs.clone(),
+        _ => vec![],
+    };
+    let ok = items.len() == exact.len() && items.iter().zip(exact.iter()).all(|(g, (_, v))| g == *v && std::mem::discriminant(g) == std::mem::discriminant(*v));
+    if !ok {
+        acc.violation(
+            format!("wrong-value|{}|{}", D::NAME, class),
+            format!("[{}] {:?} evaluates to {} but its items spell {:?}", D::NAME, src, got.show(), exact.iter().map(|(_, v)| v.show()).collect::<Vec<_>>()),
+            payload().with("got", got.json()),
+        );
+    }
+}
+
 pub fn run(ctx: &Ctx) -> (Acc, String, bool) {
     let alpha = ['a', ' ', '"', '\\', '\n', '\t', 'é', '€', '😀', '0', '\''];
     let strs = all_strings(&alpha, ctx.pick(2, 3));
@@ -407,6 +451,26 @@ pub fn run(ctx: &Ctx) -> (Acc, String, bool) {
             check::<Simple>(c, acc);
             check::<Basic>(c, acc);
         }
+        // the literals of this case in one program, and with numerically / textually equal literals of another kind
+        if cases.len() >= 2 {
+            let refs: Vec<&Case> = cases.iter().take(4).collect();
+            check_together::<Simple>(&refs, acc);
+            check_together::<Basic>(&refs, acc);
+        }
+        if let Some(c) = cases.first() {
+            let twin: Option<Case> = match &c.expect {
+                Expect::Exact(V::Int(v)) => Some(Case { src: format!("{}.0", v), expect: Expect::Exact(V::Float(*v as f64)), class: "float|twin".into() }),
+                Expect::Exact(V::Float(f)) if f.fract() == 0.0 && f.abs() < 2147483648.0 => Some(Case { src: format!("{}", *f as i64), expect: Expect::Exact(V::Int(*f as i32)), class: "int|twin".into() }),
+                Expect::Exact(V::CharList(t)) if !t.is_empty() && t.chars().all(|ch| ch.is_ascii_alphanumeric()) => Some(Case { src: format!("'{}'", t), expect: Expect::Exact(V::ByteList(t.bytes().collect())), class: "bytes|twin".into() }),
+                _ => None,
+            };
+            if let Some(t) = twin {
+                for order in [[c, &t], [&t, c]] {
+                    check_together::<Simple>(&order, acc);
+                    check_together::<Basic>(&order, acc);
+                }
+            }
+        }
         if i % 2003 == 0 {
             if let Some(c) = cases.first() {
                 acc.sample(Json::s(format!("{:?} must denote {:?}", c.src, c.expect)));
@@ -414,7 +478,7 @@ pub fn run(ctx: &Ctx) -> (Acc, String, bool) {
         }
     });
     let rule = format!(
-        "exhaustive: all {} strings of length <= {} over {{a, space, quote, backslash, newline, tab, é, €, 😀, 0, apostrophe}} in 1-quote (escaped), 3- and 4-quote forms; all {} byte vectors of length <= 2 over 7 byte values in numeric and character spellings; {} boundary non-negative i32 x every radix 2..36 (plain / separators / leading zeros); fixed floats, symbol names (ASCII and multi-byte) and non-ASCII byte-literal spellings; random: {} literals (ints in random radix with separators, finite non-negative floats in shortest decimal/exponent form, strings and byte vectors up to 12 elements). Each literal is compiled and run as a one-literal program on both stores, read back, and re-read through the element getters.",
+        "exhaustive: all {} strings of length <= {} over {{a, space, quote, backslash, newline, tab, é, €, 😀, 0, apostrophe}} in 1-quote (escaped), 3- and 4-quote forms; all {} byte vectors of length <= 2 over 7 byte values in numeric and character spellings; {} boundary non-negative i32 x every radix 2..36 (plain / separators / leading zeros); fixed floats, symbol names (ASCII and multi-byte) and non-ASCII byte-literal spellings; random: {} literals (ints in random radix with separators, finite non-negative floats in shortest decimal/exponent form, strings and byte vectors up to 12 elements). Each literal is compiled and run as a one-literal program on both stores, read back, and re-read through the element getters; the literals of a case are also compiled together in one program, and every integer / whole float / plain text literal next to its twin of the other kind (7 and 7.0, \"ab\" and 'ab') in both orders.",
         n_strs,
         ctx.pick(2, 3),
         n_b,
